@@ -90,6 +90,11 @@ def real_history(args, scratch):
     script = args["script"]
     events = []
     client_bytes = []
+    if args.get("preexisting_dir"):
+        # the key folder already exists with lax permissions (an earlier start died between mkdir and chmod, a package script, a restore ...)
+        os.makedirs(KEY_DIR, exist_ok=True)
+        os.chmod(KEY_DIR, 0o755)
+        os.chmod(os.path.dirname(KEY_DIR), 0o755)
     trace_opts = ["-e", "trace=mkdir,chown,fchown,chmod,fchmod,openat,rename,creat"] if args.get("strace") else None
     agent = realagent.RealAgent(scratch, tag="a0", vdir=vdir, poll_s=1, strace=trace_opts, worker_threads=2)
     agents = [agent]
@@ -191,7 +196,8 @@ def real_history(args, scratch):
             res["violations"].append(["key-directory-missing", {}])
         if args.get("strace"):
             restricted = False
-            for line in open(agents[0].trace_path, errors="replace"):
+            merged = common.merge_strace(agents[0].trace_path)
+            for line in merged:
                 if "chmod(" in line and KEY_DIR in line and "0700" in line and "= 0" in line:
                     restricted = True
                 if ("openat(" in line or "creat(" in line) and KEY_DIR + "/" in line and "O_CREAT" in line:
@@ -229,7 +235,7 @@ def pipeline(args, scratch):
     imds = mockhost.MockHost("169.254.169.254", 80, lambda req: hostdocs.own_calls_handler("imds", req) or {"status": 200, "body": b"{}"}, name="imds")
     ws = wsmock.WsMock(key_dir=KEY_DIR, rng=r)
     ws.version = "1.0"; ws.state_v1 = "WireserverAndImds"
-    sh = shimmod.Shim(scratch + "/shim", runtime="multi:4", verif_dir=vdir)
+    sh = shimmod.Shim(scratch + "/shim", runtime="multi:4", verif_dir=vdir, env={"GPA_VERIF_DELAY": "get_key:200:300", "GPA_VERIF_DELAY_SEED": str(args["shard"] + 3)})
     client_bytes = []
     try:
         sh.call("init", log_dir="/var/log/azure-proxy-agent", log_level="Trace")
@@ -271,6 +277,24 @@ def pipeline(args, scratch):
                 ws.rules = {"wireserver": gen_rbac.gen_doc(r, dup_ok=False, mode="audit"), "imds": gen_rbac.gen_doc(r, dup_ok=False, mode="audit")}
                 ws.rules["wireserver"]["id"] = "w-%d" % round_; ws.rules["imds"]["id"] = "i-%d" % round_
             time.sleep(0.25)
+        # clients that reset the connection right after (or while) sending a request: the handler is cancelled at arbitrary points
+        import socket as _s, struct as _st
+        aborted = 0
+        for k in range(args.get("aborts", 0)):
+            try:
+                c = rawhttp.Conn("127.0.0.1", 3080, connect=False, timeout=2)
+                standin.inject(vdir, c.src_port, 0, os.getpid(), 1, "169.254.169.254", 80)
+                c.connect()
+                raw = rawhttp.build_request("GET", "/metadata/instance?abort=%d" % k, [("x-vf-id", "abort-%d" % k)])
+                cut = len(raw) if k % 3 else r.randrange(1, len(raw))
+                c.s.sendall(raw[:cut])
+                if k % 2:
+                    time.sleep(r.random() * 0.0006)
+                c.close(abort=True)
+                aborted += 1
+            except OSError:
+                pass
+        res["counts"]["pipeline_aborted_requests"] = aborted
         for g in ws.latched_history:
             taint.secrets[g] = ws.issued[g]
         time.sleep(0.4)
@@ -326,10 +350,10 @@ def run(tier, rep):
         script = ["traffic", "provision"] + [r.choice(STEPS) for _ in range(3 if tier == "quick" else 6)] + ["traffic"]
         if not any(s.startswith("fault") for s in script):
             script.insert(2, "fault-attest")
-        args.append({"shard": i, "tier": tier, "script": script, "strace": i % 2 == 0})
+        args.append({"shard": i, "tier": tier, "script": script, "strace": i % 2 == 0, "preexisting_dir": i % 3 == 1})
     for res in sandbox.run_many("vf.props.c12", "real_history", args, workers=8, timeout=600):
         rep.merge_worker(res)
-    pargs = [{"shard": i, "tier": tier, "rounds": 8 if tier == "quick" else 40} for i in range(2 if tier == "quick" else 8)]
+    pargs = [{"shard": i, "tier": tier, "rounds": 8 if tier == "quick" else 40, "aborts": 4000 if tier == "quick" else 30000} for i in range(4 if tier == "quick" else 8)]
     for res in sandbox.run_many("vf.props.c12", "pipeline", pargs, workers=8, timeout=600):
         rep.merge_worker(res)
     rep.assumptions += ["keys issued by the host but never latched (e.g. a malformed key document the agent could not attest) are not secrets of interest",
